@@ -7,7 +7,7 @@ out="$1"; dest="$2"; shift 2
 export GOFLAGS=-mod=mod GOPROXY=off GOSUMDB=off GOTOOLCHAIN=local
 wt=/tmp/sc.$$
 git -C /repo worktree add -q "$wt" HEAD || exit 2
-trap 'git -C /repo worktree remove --force "$wt" >/dev/null 2>&1; git -C /repo checkout -q -- . 2>/dev/null' EXIT
+trap 'git -C /repo worktree remove --force "$wt" >/dev/null 2>&1' EXIT
 cd "$wt"
 cp /repo/go.sum "$wt/go.sum"
 git apply "$out/patch.diff" || { echo "SEED: patch does not apply"; exit 2; }
@@ -19,12 +19,9 @@ if go test -count=1 -run 'Demo|demo|ZZ' "./$dest/" >/tmp/sc.$$.log 2>&1; then ec
 git apply -R "$out/patch.diff"
 if go test -count=1 -run 'Demo|demo|ZZ' "./$dest/" >/tmp/sc.$$.log 2>&1; then echo "SEED: demo passes without the change (expected)"; else echo "SEED: demo FAILS without the change (unexpected)"; tail -5 /tmp/sc.$$.log; fi
 rm -f /tmp/sc.$$.log
-cd /verif
-git -C /repo apply "$out/patch.diff" || { echo "SEED: patch does not apply to /repo"; exit 2; }
+cd "$wt" && git apply "$out/patch.diff" && rm -f "$wt/$dest"/*zz_demo* && cd /verif
 for c in "$@"; do
-  ./check "$c" > .work/seed.$c.log 2>&1; rc=$?
+  WSYM_REPO="$wt" WSYM_NO_EVIDENCE=1 ./check "$c" > .work/seed.$c.log 2>&1; rc=$?
   echo "CHECK $c exit=$rc: $(grep -c '^VIOLATION' .work/seed.$c.log) violations; $(grep '^  assertion' .work/seed.$c.log | sort | uniq -c | sort -rn | head -3 | tr '\n' ';')"
   tail -1 .work/seed.$c.log
 done
-git -C /repo checkout -q -- .
-git -C /repo status --short
